@@ -206,7 +206,8 @@ def classify(case):
 def _negzero_in_integral_column(case):
     for col in ("log2", "depth", "weight"):
         vals = case[col]
-        if vals and all(float(v).is_integer() for v in vals) and any(v == 0 and math.copysign(1.0, v) < 0 for v in vals):
+        # integral as written: the writer keeps 6 significant digits, so 7.999999999999999 is written as "8"
+        if vals and all(float("%.6g" % v).is_integer() for v in vals) and any(v == 0 and math.copysign(1.0, v) < 0 for v in vals):
             return True
     return False
 
